@@ -2506,7 +2506,9 @@ class Parser:
         def extend_props(temp_props: exp.Properties | None) -> None:
             nonlocal properties
             if properties and temp_props:
-                properties.expressions.extend(temp_props.expressions)
+                # append() re-parents the moved properties and fixes their list index
+                for prop in temp_props.expressions:
+                    properties.append("expressions", prop)
             elif temp_props:
                 properties = temp_props
 
